@@ -320,7 +320,29 @@ def same_class_name_case():
     return {"a": [(10, ["currency", "note"])], "b": [(10, "USD")]}, got
 
 
+def chained_event_case():
+    """An event name used as a callback (`after="store"`) triggers that event with the parent's positional and keyword
+    data; the chained event's own callbacks bind them like any other, and `event` describes the chained event."""
+    from statemachine import State, StateMachine
+    uid = next(_uid)
+    src = (f"class Chain{uid}(StateMachine):\n    waiting = State(initial=True)\n    received = State()\n    stored = State(final=True)\n"
+           f"    receive = waiting.to(received, after='store')\n    store = received.to(stored)\n"
+           "    def on_receive(self, name, size, *rest, owner=None):\n        self.__dict__.setdefault('seen', []).append(('receive', name, size, rest, owner))\n"
+           "    def on_store(self, name, size, *rest, owner=None, event=None):\n        self.__dict__.setdefault('seen', []).append(('store', name, size, rest, owner, str(event)))\n")
+    ns = {"State": State, "StateMachine": StateMachine}
+    exec(src, ns)  # noqa: S102
+    sm = ns[f"Chain{uid}"]()
+    try:
+        sm.receive("a.txt", 42, "extra", owner="ann")
+        got = {"seen": sm.__dict__.get("seen"), "state": sm.current_state.id}
+    except Exception as e:  # noqa: BLE001
+        got = {"raised": f"{type(e).__name__}: {str(e)[:80]}", "seen": sm.__dict__.get("seen")}
+    want = {"seen": [("receive", "a.txt", 42, ("extra",), "ann"), ("store", "a.txt", 42, ("extra",), "ann", "store")], "state": "stored"}
+    return want, got
+
+
 SPECIAL = [("same-class-and-method-name-in-two-definitions", same_class_name_case),
+           ("an-event-used-as-a-callback-forwards-the-parents-arguments", chained_event_case),
            ("lambdas-in-one-class-body", lambdas_case), ("one-factory-different-keyword-only-names", factory_case),
            ("built-ins-do-not-leak-into-the-events-own-kwargs", leak_case)]
 
